@@ -42,6 +42,9 @@ def callee_path(f):
         return None
     if f.get("res") and f.get("res_krate") in WORKSPACE:
         return f["res"]
+    # `std::mem::take(&mut opt)` on an Option is `opt.take()`
+    if f.get("def") == "std::mem::take" and f.get("args") and str(f["args"][0]).startswith("std::option::Option<"):
+        return "std::option::Option::<T>::take"
     return f["def"]
 
 # callees that are the identity on the access path (reference / smart pointer plumbing)
